@@ -19,7 +19,7 @@ var verifYieldHook atomic.Value // of func(int)
 // Points: 1,2,3 counter.value; 11 gauge.Update; 21 gauge.report; 22 gauge.cachedReport;
 // 31 (with key),32,34,35 registry report pass; 33 removeWithRLock hand-over;
 // 41,44,45 registry Subscope; 51..54 metric getters (between probe and Lock);
-// 61,62 reportLoopRun; 63,64 root Close.
+// 60 harness-driven report loop; 61,62 reportLoopRun; 66,65,63,64 Close.
 func verifYield(point int) {
 	if f, _ := verifYieldHook.Load().(func(int)); f != nil {
 		f(point)
@@ -112,5 +112,36 @@ func VerifScopeID(s Scope) string { return fmt.Sprintf("%p", s) }
 func VerifWaitLoop(s Scope) {
 	if ss, ok := s.(*scope); ok {
 		ss.wg.Wait()
+	}
+}
+
+// VerifLoopAdd registers a harness-driven report loop with the root's
+// WaitGroup, as newRootScope does for the ticker goroutine.
+func VerifLoopAdd(s Scope) {
+	if ss, ok := s.(*scope); ok {
+		ss.wg.Add(1)
+	}
+}
+
+// VerifLoop is reportLoop with the ticker replaced by next(): true stands for
+// a tick, false makes the loop look at the done channel. It runs in the
+// calling goroutine and returns when the loop observes done.
+func VerifLoop(s Scope, next func() bool) {
+	ss, ok := s.(*scope)
+	if !ok {
+		return
+	}
+	defer ss.wg.Done()
+	for {
+		verifYield(60)
+		if next() {
+			ss.reportLoopRun()
+			continue
+		}
+		select {
+		case <-ss.done:
+			return
+		default:
+		}
 	}
 }
